@@ -508,9 +508,15 @@ impl PreferenceManager {
             return Ok( () );
         }
 
-        if language_country == "Auto" && decimal_separator == "Auto" {
-            return Ok( () );        // "Auto" doesn't tell us anything -- we will get called again when Language is set
-        }
+        // "Auto" stands for the language the host has given in LanguageAuto; as long as it hasn't given one, English is spoken
+        let language_auto = self.pref_to_string("LanguageAuto");
+        let language_country = if language_country != "Auto" {
+            language_country
+        } else if !language_auto.is_empty() && language_auto != NO_PREFERENCE {
+            language_auto.as_str()
+        } else {
+            "en"
+        };
 
         let language_country = language_country.to_ascii_lowercase();
         let language_country = &language_country;
@@ -732,6 +738,10 @@ impl PreferenceManager {
             }
         } else {
             self.api_prefs.prefs.insert(key.to_string(), Yaml::String(value.to_string()));
+        }
+        if key == "LanguageAuto" {
+            // now we know the language "Auto" stands for (see set_separators)
+            self.set_separators(value)?;
         }
         return Ok( () );
     }
